@@ -1,4 +1,5 @@
 import Model.NonceStore
+import Generated.OAuth1
 /-
   C12, sentence 3 ("each combination of client, token, timestamp and nonce is accepted at most once, timestamps older
   than the configured window are refused") for the replay guard the integrations ship: a timestamp window without an
@@ -99,6 +100,23 @@ theorem accepted_at_most_once_partial (c : Cfg) (s : Store) (t1 t2 ts : Int) (k 
   omega
 
 def shipped : Cfg := ⟨300, 86400⟩
+
+/-- the constants the code ships NOW (regenerated): a 300 s timestamp window, HMAC-SHA1 as the only default signature
+    method, and a nonce memory of one day in the Flask cache hooks and in both Django classes -/
+theorem shipped_constants :
+    Generated.OAuth1.expiryTime = 300 ∧ Generated.OAuth1.defaultSignatureMethods = ["HMAC-SHA1"] ∧
+    Generated.OAuth1.flaskNonceExpires = 86400 ∧ Generated.OAuth1.flaskRegisterNonceExpires = 86400 ∧
+    Generated.OAuth1.djangoServerNonceExpires = 86400 ∧ Generated.OAuth1.djangoProtectorNonceExpires = 86400 := by decide
+
+theorem shipped_eq_generated : shipped.window = Generated.OAuth1.expiryTime ∧ shipped.ttl = Generated.OAuth1.flaskNonceExpires := by decide
+
+/-- with the shipped constants: a request whose timestamp is less than 86 100 s ahead of the server clock is accepted at
+    most once, whatever else the server sees in between -/
+theorem shipped_accepted_at_most_once (s : Store) (t1 t2 ts : Int) (k : String) (mid : List Req)
+    (hmid : ∀ r ∈ mid, t1 ≤ r.now) (hts : ts - t1 < 86100)
+    (h1 : (step shipped s t1 ts k).2 = .accepted) :
+    (step shipped (run shipped (step shipped s t1 ts k).1 mid).1 t2 ts k).2 ≠ .accepted :=
+  accepted_at_most_once_partial shipped s t1 t2 ts k mid hmid (by simp only [shipped]; omega) h1
 
 /-- … and it is false beyond: the shipped constants, a timestamp 90 000 s ahead, the same request 86 500 s later -/
 theorem future_timestamp_accepted_twice :
